@@ -18,19 +18,33 @@ def main():
     try:
         for m in todo:
             subprocess.run(["git", "-C", wt, "checkout", "-q", "--", "."], check=True)
-            path = os.path.join(wt, m["file"])
-            src = open(path).read()
+            if "revert" in m:
+                subprocess.run(["git", "-C", wt, "revert", "--no-commit", m["revert"]], check=True, capture_output=True)
+                subprocess.run(["git", "-C", wt, "reset", "-q"], check=True)
+                src = None
+            else:
+                path = os.path.join(wt, m["file"])
+                src = open(path).read()
+            if src is None:
+                pass
+            elif False:
+                pass
             nth = m.get("nth")
-            if (nth is None and src.count(m["old"]) != 1) or (nth is not None and src.count(m["old"]) <= nth):
+            if src is None:
+                pass
+            elif (nth is None and src.count(m["old"]) != 1) or (nth is not None and src.count(m["old"]) <= nth):
                 print("SELFTEST-BROKEN %s: pattern occurs %d times in %s" % (m["name"], src.count(m["old"]), m["file"]))
                 fails += 1
                 continue
-            if nth is None:
+            if src is None:
+                pass
+            elif nth is None:
                 src = src.replace(m["old"], m["new"])
             else:
                 parts = src.split(m["old"])
                 src = m["old"].join(parts[:nth + 1]) + m["new"] + m["old"].join(parts[nth + 1:])
-            open(path, "w").write(src)
+            if src is not None:
+                open(path, "w").write(src)
             env = dict(os.environ, VERIF_REPO=wt)
             r = subprocess.run([os.path.join(VERIF, "bin/check"), m["check"]], cwd=VERIF, env=env, capture_output=True, text=True)
             out = r.stdout
